@@ -344,6 +344,15 @@ class World:
                 return self.apply(eng, self.wrap_py(x, f'{o.__name__}.{attr}'), args, kwargs, st, e)
             if isinstance(o, str):
                 return self.str_method(eng, V(eng_str_t(self), self.lift_str(o)), attr, args, kwargs, st, e)
+            if isinstance(o, dict) and attr == 'get' and o and len(args) in (1, 2) and (len(args) == 1 or isinstance(args[1], VNone)):
+                # lookup in a module-level constant mapping: a chain of comparisons with its keys (first key wins, as keys are distinct)
+                vals = [const_value(v) for v in o.values()]
+                if all(isinstance(v, V) and v.t == vals[0].t for v in vals):
+                    rt = TOpt(vals[0].t)
+                    res = rt.none()
+                    for k, v in reversed(list(zip(o.keys(), vals))):
+                        res = z3.If(eng.eq(args[0], const_value(k), e), rt.some(v.term), res)
+                    return V(rt, res)
         return self.value_method(eng, base, attr, args, kwargs, st, e, recv_node)
 
     def value_method(self, eng, base, attr, args, kwargs, st, node, recv_node):
@@ -848,6 +857,16 @@ class World:
         pre.old_heap = dict(st.heap)
         for r in c.requires:
             eng.oblige(st, 'call-pre', eng.spec_bool(r, pre), f'precondition of {qual.split(".")[-1]}: {r}')
+        if qual == eng.c.qual and not eng.spec_mode:
+            # a recursive call: its own contract is assumed, which is sound only if the recursion is well-founded
+            if not c.decreases:
+                raise Unsupported(f'recursive call of {qual} without a decreases clause in its contract', node)
+            entry = st.copy()
+            entry.env = dict(st.old_env)
+            entry.heap = dict(st.old_heap)
+            m0 = eng.coerce(eng.spec_eval(c.decreases, entry), INT).term
+            m1 = eng.coerce(eng.spec_eval(c.decreases, pre), INT).term
+            eng.oblige(st, 'rec-variant', z3.And(m0 >= 0, m1 >= 0, m1 < m0), f'recursive call decreases the measure {c.decreases}')
         havocked = []
         for m in c.modifies:
             on, f = m.split('.')
